@@ -8,12 +8,19 @@ package relayer
 // the queue it builds is non-nil. What it checks / does not check w.r.t. the rest of the invariant is analysed in
 // /var/tmp/ag_rel/NOTES.md section 4 (findings G1-G3).
 //@ func InitGenesis
-//@ property C16
+//@ property C16 C18
 //@ ensures stored: has(st.relayer.Relayer) && has(st.relayer.Params) && has(st.relayer.Queue) && has(st.relayer.Randao)
 //@ ensures relayer_as_given: genState.Relayer != nil && st.relayer.Relayer == *genState.Relayer && st.relayer.Params == genState.Params
 //@ ensures period: st.relayer.Params.ElectingPeriod != 0
 //@ modifies st.relayer.Relayer, st.relayer.Params, st.relayer.Queue, st.relayer.Randao, st.relayer.Sequence, st.relayer.Voters, st.relayer.Pubkeys
-//@ loop 0 invariant true
+// C18 (import acceptance, structural part): an export of a running chain names a proposer and members that are stored voters
+// (whatever their status: a member whose removal is queued is still a member until the next election), so the two
+// membership rejections of the import must be unreachable for such a state.
+//@ requires [C18] proposer_is_voter: genState.Relayer != nil && exists(i, 0, len(genState.Voters), addrEncode(genState.Voters[i].Address) == genState.Relayer.Proposer)
+//@ requires [C18] members_are_voters: genState.Relayer != nil && forall(k, 0, len(genState.Relayer.Voters), exists(i, 0, len(genState.Voters), addrEncode(genState.Voters[i].Address) == genState.Relayer.Voters[k]))
+//@ unreachable panic 6 proposer_accepted
+//@ unreachable panic 11 member_accepted
+//@ loop 0 invariant in_set: forall(j, 0, rangeindex + 1, has(votersSet, addrEncode(genState.Voters[j].Address)))
 //@ loop 1 invariant true
 //@ loop 2 invariant true
 //@ loop 3 invariant true
